@@ -142,3 +142,5 @@ func genFragmentSoup(t *rapid.T, maxParts int) string {
 	}
 	return b.String()
 }
+
+func sortStrings(s []string) { sort.Strings(s) }
